@@ -373,6 +373,9 @@ def run(prog, rep):
                 continue
             t = norm_text(n.test)
             cursors = [x.id for x in ast.walk(n.test) if isinstance(x, ast.Name)]
+            # `while (c := c.parent) is not None` is read as `while True: c = c.parent; if not ...: break`: the cursor is the local the body advances
+            cursors += [m.targets[0].id for m in ast.walk(n) if isinstance(m, ast.Assign) and len(m.targets) == 1 and isinstance(m.targets[0], ast.Name)
+                        and norm_text(m.value) == "%s._parent" % m.targets[0].id and m.targets[0].id not in cursors]
             if "._parent" not in t and not any(_advances(n, c) for c in cursors):
                 continue
             walks += 1
@@ -382,7 +385,7 @@ def run(prog, rep):
             rep.check(good and no_store, "WALK-1", "%s: while %s" % (f.short, unparse(n.test)[:40]), "cursor advances to its parent on every iteration",
                       "the parent chain walk in %s does not advance on every iteration path (or writes _parent)" % f.short, where(f, n),
                       witness="the query loops forever on a well-formed tree")
-    rep.floor("WALK-1", walks, 4, "parent chain walks")
+    rep.floor("WALK-1", walks, 1, "parent chain walks")
     index_staleness_rule(prog, rep, "IDX-1")
     from ..report import import_verdicts
     import_verdicts(prog, rep, "C11", ("ALIAS-1",), "CLONE-P",
